@@ -594,10 +594,13 @@ var c01UserIDs = []string{"", "a", "Alice <alice@example.org>", "Alice (comment)
 func c01GenPGP(c *Ctx, r *Rng, seeds []seedInput, add func(kind, name string, data []byte)) {
 	nkeys := 0
 	rot := r.Intn(3)
-	maxKeys := 5
-	if c.Thorough() {
-		maxKeys = 1000
+	// the genuine keys: one per (primary algorithm, set of subkey algorithms, public/secret); the quick tier takes
+	// five of them, chosen by the seed, the thorough tier all
+	type pgpBase struct {
+		ps        []c01Pkt
+		blockType string
 	}
+	var bases []pgpBase
 	seenAlgo := map[string]bool{}
 	for _, s := range seeds {
 		if s.tag != "pgp" {
@@ -608,19 +611,39 @@ func c01GenPGP(c *Ctx, r *Rng, seeds []seedInput, add func(kind, name string, da
 			continue
 		}
 		ps, ok := c01SplitPackets(data)
-		if !ok || len(ps) < 3 {
+		if !ok || len(ps) < 3 || len(ps[0].body) < 6 {
 			continue
 		}
-		secret := strings.Contains(blockType, "PRIVATE")
-		// one key per (primary algorithm, public/secret) in the quick tier
-		sig := fmt.Sprintf("%d-%v", ps[0].body[c01Min(5, len(ps[0].body)-1)], secret)
-		if seenAlgo[sig] && !c.Thorough() {
+		sig := blockType
+		for _, p := range ps {
+			if (p.tag == 5 || p.tag == 6 || p.tag == 7 || p.tag == 14) && len(p.body) >= 6 {
+				sig += fmt.Sprintf("-%d", p.body[5])
+			}
+		}
+		if seenAlgo[sig] {
 			continue
 		}
 		seenAlgo[sig] = true
-		if nkeys >= maxKeys {
-			break
+		bases = append(bases, pgpBase{ps, blockType})
+	}
+	if !c.Thorough() && len(bases) > 5 {
+		var pick []pgpBase
+		idx := make([]int, len(bases))
+		for i := range idx {
+			idx[i] = i
 		}
+		for i := len(idx) - 1; i > 0; i-- {
+			j := r.Intn(i + 1)
+			idx[i], idx[j] = idx[j], idx[i]
+		}
+		for _, i := range idx[:5] {
+			pick = append(pick, bases[i])
+		}
+		bases = pick
+	}
+	for _, b := range bases {
+		ps, blockType := b.ps, b.blockType
+		secret := strings.Contains(blockType, "PRIVATE")
 		nkeys++
 		name := "k.asc"
 		emit := func(tag string, stream []byte) { add(tag+":pgp", name, c01Armor(blockType, stream)) }
